@@ -341,10 +341,14 @@ namespace igris
             m_size = n;
         }
 
-        void erase(iterator newend)
+        iterator erase(iterator pos)
         {
+            // as std::vector::erase(pos): removes exactly the element at
+            // pos and returns the position of the element that followed it
+            iterator newend = std::move(pos + 1, end(), pos);
             igris::array_destructor(newend, end());
-            m_size = newend - m_data;
+            --m_size;
+            return pos;
         }
 
         void erase(iterator first, iterator last)
